@@ -208,8 +208,10 @@ def c11c(ctx):
     def ev2(st):
         if isinstance(st, ast.Assign) and unparse(st.targets[0]) == 'handle_tiles' and isinstance(st.value, ast.ListComp):
             conds = ' and '.join(unparse(i) for gen in st.value.generators for i in gen.ifs)
-            return 'all' if conds.replace(' ', '') == 'tisnotNone' else 'uncached' if 'not self.tile_mgr.is_cached(t)' in conds and 'is not None' in conds \
-                else 'stale' if 'self.tile_mgr.is_stale(t)' in conds and 'is not None' in conds else 'other:' + conds
+            cv = unparse(st.value.generators[0].target)       # the comprehension variable, whatever it is called
+            return 'all' if conds.replace(' ', '') == cv + 'isnotNone' else \
+                'uncached' if 'not self.tile_mgr.is_cached(%s)' % cv in conds and 'is not None' in conds \
+                else 'stale' if 'self.tile_mgr.is_stale(%s)' % cv in conds and 'is not None' in conds else 'other:' + conds
         return None
     filt = [s for s in loop.body if isinstance(s, ast.If) and unparse(s.test) == 'self.handle_all']
     ok = bool(filt)
